@@ -276,6 +276,47 @@ theorem oracle_accepts_iff (flow size : Int → Nat) (cfg : VcCfg ℚ) (o : OSt 
     · simp only [hok, if_true, Option.isSome_some, true_iff]; exact hiff.mp hok
     · simp only [hok, if_false, Option.isSome_none, Bool.false_eq_true, false_iff]; exact fun h => hok (hiff.mpr h)
 
+/-- **What the oracle accepts at a service start** (`VCOnK.ostep`, the `serve` clause spelled out): `serve id t` is accepted iff
+nothing is in transmission, a hand-off is under way with candidates `l` since instant `t`, `id` is one of the candidates `w`,
+**every candidate `w'` has a larger stamp than `w`, or the same stamp and no earlier arrival instant**, and `id` is the oldest
+waiting packet of its flow. -/
+theorem oracle_serve_iff (flow size : Int → Nat) (cfg : VcCfg ℚ) (o : OSt ℚ) (id : Int) (t : ℚ) :
+    (ostep flow size cfg o (.serve id t)).isSome ↔
+      o.busy = none ∧ o.pend = none ∧ ∃ l, o.cand = some (l, t) ∧ ∃ w ∈ l, w.1 = id ∧
+        (∀ w' ∈ l, w.2.1 < w'.2.1 ∨ (w.2.1 = w'.2.1 ∧ w.2.2 ≤ w'.2.2)) ∧
+        ((o.waiting.filter fun y => flow y.1 = flow id).head?.map (·.1)) = some id := by
+  have hk : ∀ w w' : WItem ℚ, ¬ VCOnK.keyLt w' w ↔ (w.2.1 < w'.2.1 ∨ (w.2.1 = w'.2.1 ∧ w.2.2 ≤ w'.2.2)) := by
+    intro w w'
+    unfold VCOnK.keyLt
+    constructor
+    · intro h
+      simp only [not_or, not_and, not_lt] at h
+      rcases lt_or_eq_of_le h.1 with h1 | h1
+      · exact Or.inl h1
+      · exact Or.inr ⟨h1, h.2 (le_of_eq h1.symm)⟩
+    · rintro (h | ⟨h1, h2⟩)
+      · simp only [not_or, not_and, not_lt]; exact ⟨le_of_lt h, fun h' => absurd h (not_lt.mpr h')⟩
+      · simp only [not_or, not_and, not_lt]; exact ⟨le_of_eq h1, fun _ => h2⟩
+  have hiff : ServeOK flow o id t ↔
+      o.busy = none ∧ o.pend = none ∧ ∃ l, o.cand = some (l, t) ∧ ∃ w ∈ l, w.1 = id ∧
+        (∀ w' ∈ l, w.2.1 < w'.2.1 ∨ (w.2.1 = w'.2.1 ∧ w.2.2 ≤ w'.2.2)) ∧
+        ((o.waiting.filter fun y => flow y.1 = flow id).head?.map (·.1)) = some id := by
+    unfold ServeOK
+    cases hc : o.cand with
+    | none => simp
+    | some x =>
+      obtain ⟨l, th⟩ := x
+      simp only [Option.isNone_iff_eq_none, eqT_iff, Option.some.injEq, Prod.mk.injEq]
+      constructor
+      · rintro ⟨h1, h2, rfl, w, hw, h3, h4, h5⟩
+        exact ⟨h1, h2, l, ⟨rfl, rfl⟩, w, hw, h3, fun w' hw' => (hk w w').mp (h4 w' hw'), h5⟩
+      · rintro ⟨h1, h2, l', ⟨rfl, rfl⟩, w, hw, h3, h4, h5⟩
+        exact ⟨h1, h2, rfl, w, hw, h3, fun w' hw' => (hk w w').mpr (h4 w' hw'), h5⟩
+  simp only [ostep]
+  by_cases hok : ServeOK flow o id t
+  · simp only [hok, if_true, Option.isSome_some, true_iff]; exact hiff.mp hok
+  · simp only [hok, if_false, Option.isSome_none, Bool.false_eq_true, false_iff]; exact fun h => hok (hiff.mpr h)
+
 /-- **The history of every kernel run passes the oracle, step by step**: at every state reachable by kernel steps the
 `put` / `stamp` / `get` / `serve` / `out` observations recorded so far are accepted by `VCOnK.orun` from the empty oracle state —
 every arrival so far was stamped `max(now, aux_vc) + vtick`, every hand-off so far took a candidate of minimal
@@ -720,6 +761,47 @@ theorem kernel_wfq_min_stamp (N scale F : Nat) (flow size : Int → Nat) (cfg : 
   · intro x hx
     obtain ⟨y, hy, rfl⟩ := List.mem_map.mp hx
     exact h4 y hy
+
+/-- **What the oracle accepts at a service start** (WFQ; `WFQOnK.ostep`, the `serve` clause spelled out): `serve id t` is accepted iff
+nothing is in transmission, a hand-off is under way with candidates `l` since instant `t`, `id` is one of the candidates `w`,
+**every candidate `w'` has a larger stamp than `w`, or the same stamp and no earlier arrival instant**, and `id` is the oldest
+waiting packet of its flow. -/
+theorem wfq_oracle_serve_iff (F : Nat) (flow size : Int → Nat) (cfg : WfqCfg ℚ) (o : OSt ℚ) (id : Int) (t : ℚ) :
+    (ostep F flow size cfg o (.serve id t)).isSome ↔
+      o.busy = none ∧ o.pend = none ∧ ∃ l, o.cand = some (l, t) ∧ ∃ w ∈ l, w.1 = id ∧
+        (∀ w' ∈ l, w.2.1 < w'.2.1 ∨ (w.2.1 = w'.2.1 ∧ w.2.2 ≤ w'.2.2)) ∧
+        ((o.waiting.filter fun y => flow y.1 = flow id).head?.map (·.1)) = some id := by
+  have hk : ∀ w w' : WItem ℚ, ¬ WFQOnK.keyLt w' w ↔ (w.2.1 < w'.2.1 ∨ (w.2.1 = w'.2.1 ∧ w.2.2 ≤ w'.2.2)) := by
+    intro w w'
+    unfold WFQOnK.keyLt
+    constructor
+    · intro h
+      simp only [not_or, not_and, not_lt] at h
+      rcases lt_or_eq_of_le h.1 with h1 | h1
+      · exact Or.inl h1
+      · exact Or.inr ⟨h1, h.2 (le_of_eq h1.symm)⟩
+    · rintro (h | ⟨h1, h2⟩)
+      · simp only [not_or, not_and, not_lt]; exact ⟨le_of_lt h, fun h' => absurd h (not_lt.mpr h')⟩
+      · simp only [not_or, not_and, not_lt]; exact ⟨le_of_eq h1, fun _ => h2⟩
+  have hiff : ServeOK flow o id t ↔
+      o.busy = none ∧ o.pend = none ∧ ∃ l, o.cand = some (l, t) ∧ ∃ w ∈ l, w.1 = id ∧
+        (∀ w' ∈ l, w.2.1 < w'.2.1 ∨ (w.2.1 = w'.2.1 ∧ w.2.2 ≤ w'.2.2)) ∧
+        ((o.waiting.filter fun y => flow y.1 = flow id).head?.map (·.1)) = some id := by
+    unfold ServeOK
+    cases hc : o.cand with
+    | none => simp
+    | some x =>
+      obtain ⟨l, th⟩ := x
+      simp only [Option.isNone_iff_eq_none, WFQK.eqT_iff, Option.some.injEq, Prod.mk.injEq]
+      constructor
+      · rintro ⟨h1, h2, rfl, w, hw, h3, h4, h5⟩
+        exact ⟨h1, h2, l, ⟨rfl, rfl⟩, w, hw, h3, fun w' hw' => (hk w w').mp (h4 w' hw'), h5⟩
+      · rintro ⟨h1, h2, l', ⟨rfl, rfl⟩, w, hw, h3, h4, h5⟩
+        exact ⟨h1, h2, rfl, w, hw, h3, fun w' hw' => (hk w w').mpr (h4 w' hw'), h5⟩
+  simp only [ostep]
+  by_cases hok : ServeOK flow o id t
+  · simp only [hok, if_true, Option.isSome_some, true_iff]; exact hiff.mp hok
+  · simp only [hok, if_false, Option.isSome_none, Bool.false_eq_true, false_iff]; exact fun h => hok (hiff.mpr h)
 
 /-- **The history of every kernel run passes the WFQ oracle, step by step** (`WFQOnK.orun`, header of the oracle in
 `Net/WFQOnK.lean`): every arrival so far saw virtual time 0 (and all finish times 0) if the scheduler was empty, else
